@@ -128,6 +128,25 @@ def run(ctx):
                                          {'mode': 'read', 'replay_hex': b.hex(), 'got': out[:3]}))
             continue
         check_replay(r, parse_dump(out), sp, corr, cid, b.hex())
+    # the same fields seen through the single-frame record views (finished game and in-progress parse state): every view value must be
+    # the column value at that index, which the block above has compared with the bytes at the spec offset
+    from .C13 import check_views
+    vcases = []
+    for cid, f in cases:
+        vcases.append((cid + '_i', [f[0], 'i'])); vcases.append((cid + '_m', [f[0], 'm']))
+    vimpl, _ = both_modes(ctx, 'view', vcases, corr, parallel=8, timeout_ms=60000) if MODEL_READ else (core.run_parallel(R.run_pvh, 'view', vcases, n=8), {})
+    for cid, f in vcases:
+        corr.seen('view' + f[1] + f[0][:64] + str(len(f[0]))); corr.count('record_views_' + f[1])
+        out = vimpl.get(cid) or ['?']
+        if out[0] != 'OK' or any(('PANIC' in l or l.startswith('ABORT')) for l in out):
+            corr.oracle_failures.append((cid, 'record view failed: %s' % [l[:100] for l in out if 'PANIC' in l or l.startswith(('ERR', 'ABORT', '?'))][:2],
+                                         {'mode': 'view', 'fields': f, 'replay_hex': f[0]})); continue
+        if f[1] == 'i':
+            check_views(out, '', '', corr, cid, f, None)
+        else:
+            for k in sorted({int(l[4:l.index(']')]) for l in out if l.startswith('  v[')}):
+                if not check_views(out, '  s[%d] ' % k, '  v[%d] ' % k, corr, cid, f, None):
+                    break
     corr.sample({'case': cases[0][0], 'replay_len': len(reps[cases[0][0]][1]), 'replay_hex_prefix': cases[0][1][0][:160]})
     corr.sample({'versions': ['%d.%d.%d' % v for v in versions[:40]]})
     corr.distribution = {'versions': len(versions)}
